@@ -64,7 +64,7 @@ def _grammar_line(draw) -> str:
     if shape == "cut":
         fields = fields[: draw(st.integers(0, 5))]
     elif shape == "extend":
-        fields = fields + [draw(gen.short_payloads)]
+        fields = fields + [draw(st.one_of(gen.short_payloads, st.sampled_from(("a\nb", "\n\nx", "first\nsecond\n\nthird", "\r\ninner"))))]
     return ";".join(fields) + draw(st.sampled_from(ENDINGS))
 
 
@@ -107,6 +107,10 @@ def enumerate_cases(tier: str):
             yield {"version": version, "line": "12;3;1;0;47;" + "p" * size + "\n"}
             yield {"version": version, "line": "12;255;3;0;9;" + "a;" * (size // 2) + "\n"}
             yield {"version": version, "line": "12;3;1;0;" + "p" * size + "\n"}
+        for inner in ("first\nsecond", "\nx", "a\n\nb", "x\r\ny", "1;2\n3;4", "\x0b", "\x85line", "\u2028sep"):
+            for head in ("0;255;3;0;9;", "12;3;1;1;47;", "7;255;0;0;17;"):
+                yield {"version": version, "line": head + inner + "\n"}
+                yield {"version": version, "line": head + inner}
     versions = VERSIONS if tier == "thorough" else ("1.4", "2.2")
     reps = (NODE_REPS, CHILD_REPS, CMD_REPS, ACK_REPS, TYPE_REPS)
     for version in versions:
@@ -204,6 +208,14 @@ def run_case(case: dict) -> Outcome:
 
     # accepted: literal decode
     got = env.msg_fields(loaded)
+    # ... also the second time the same line arrives, whatever the caller did with the first result
+    try:
+        loaded.payload, loaded.command, loaded.message_type = "edited-by-caller", 1, 99
+        again = env.msg_fields(schema.load(line))
+    except Exception as err:  # noqa: BLE001
+        return fail(f"second-load-raises:{type(err).__name__}", f"second load({line!r}) raised {err!r}", classes=classes)
+    if again != got:
+        return fail("second-decode-aliases-first", f"second load({line!r}) = {again} after the caller edited the first result {got}", classes=classes)
     for name, want, have in zip(("node", "child", "command", "ack", "type"), ref["values"], got[:5]):
         if want is None:
             continue
